@@ -934,7 +934,8 @@ func (b *bitstream) skipVarUintLen(max uint64) (uint64, error) {
 // Remaining returns the number of bytes remaining in the current container.
 func (b *bitstream) remaining() uint64 {
 	if b.stack.empty() {
-		return math.MaxUint64
+		// No container bounds the value, but its end offset (b.pos + length) must still be representable.
+		return math.MaxUint64 - b.pos
 	}
 
 	end := b.stack.peek().end
